@@ -27,8 +27,10 @@ BUDGET = {
 SYMS = ['a', 'b', 'c', 'expr', 'term', 'name_1', 'X']
 STRINGS = ['"x"', '"if"', '"+"', '"|"', '"("', '")"', '"["', '"]"', '":="', '"\\n"', '"\\t"', '"->"', '"*"', '"?"', '"/"', '"a b"', '"=="',
 	# raw control characters inside longer terminals (the reader restores a backslash escape only when it is the whole terminal)
-	'"a\tb"', '"\t\t"', '"=>\t"', '"\x0c "', '"\\n"', '"a\\tb"', '"#"']
-REGEXPS = ['/[a-z]+/', '/\\d+/', '/[a-zA-Z_]\\w*/', '/"[^"]+"/', '/[\\/].+[\\/]/', '/[*+?]/', '/x{1,3}/', '/[1*]/']
+	'"a\tb"', '"\t\t"', '"=>\t"', '"\x0c "', '"\\n"', '"a\\tb"', '"#"',
+	# string terminals whose body is also the body of a regexp terminal below (same text, different comparison kind)
+	'"x+"', '"."', '"[1*]"', '"\\d+"']
+REGEXPS = ['/x+/', '/./', '/[a-z]+/', '/\\d+/', '/[a-zA-Z_]\\w*/', '/"[^"]+"/', '/[\\/].+[\\/]/', '/[*+?]/', '/x{1,3}/', '/[1*]/']
 META = set('|()[]*+?/\\"')
 
 
